@@ -51,7 +51,14 @@ def _eval_member(item):
     os.makedirs(root, exist_ok=True)
     proj.write(root, random.Random(oseed))
     try:
-        return evalproj.evaluate(root, sandbox, proj, cap)
+        res = evalproj.evaluate(root, sandbox, proj, cap)
+        if "steps" in res:
+            # reference that is independent of the reuse of already calculated packages: the same project with every
+            # package computed from its own inputs
+            alone = evalproj.evaluate(root, sandbox, None, cap, memo=False)
+            if "steps" in alone:
+                res["alone"] = {s["key"]: s["vid"] for s in alone["steps"] if s["valid"]}
+        return res
     finally:
         shutil.rmtree(root, ignore_errors=True)
 
@@ -145,6 +152,10 @@ def check_family(ctx, members, report=True):
                 ctx.case((kind, vid, sk), nontrivial=rec["valid"],
                          sample={"step": rec["key"], "vid": vid, "edit": m.get("edit")} if mi == 1 else None)
                 ctx.count("step_kind", kind)
+            if not rec["valid"]:
+                # an invalid step (no main script) executes nothing and its id is never consumed (invalid arguments are
+                # not hashed, it has no workspace); it still hashes its Setup fragments, so it is left out of the iff
+                continue
             # (1) same kind, same id => same execution side
             first = by_vid.setdefault((kind, vid), (sk, mi, rec))
             if first[0] != sk:
@@ -161,6 +172,16 @@ def check_family(ctx, members, report=True):
                      {"kind": "pair", "expect": "pure", "a": dict(_member_case(members, first[1]), key=first[2]["key"]),
                       "b": dict(_member_case(members, mi), key=rec["key"])}, classify_impure(first[2], rec))
             pkgenv.setdefault(rec["key"].rsplit(":", 1)[0], {})[rec["label"]] = rec
+        # (5) the id of a step does not depend on whether its package was reused from an earlier visit of the recipe
+        alone = res.get("alone") or {}
+        for rec in res["steps"]:
+            if rec["valid"] and rec["key"] in alone and alone[rec["key"]] != rec["vid"]:
+                viol("step %s has Variant-Id %s, but %s when its package is computed from its own inputs (no reuse of an "
+                     "earlier visit of the recipe): declared variables / inputs of this visit are not what the id says"
+                     % (rec["key"], rec["vid"], alone[rec["key"]]),
+                     {"kind": "member", "expect": "alone", "m": _member_case(members, mi), "key": rec["key"]},
+                     "variant-id-depends-on-package-reuse")
+                break
         # (3) declarations accumulate checkout <= build <= package; declared variables reach the execution environment
         for pk, st in pkgenv.items():
             chain = [st[k] for k in ("src", "build", "dist") if k in st and st[k]["valid"]]
@@ -739,14 +760,9 @@ def correspond(ctx):
 # ---------------------------------------------------------------------- replay
 
 def _reeval(ctx, m, tag):
-    from gen import evalproj
-    from gen import projects as G
-    proj = G.Project.from_json(m["project"])
     root = os.path.join(ctx.tmp, tag)
-    os.makedirs(root, exist_ok=True)
-    proj.write(root)
     return {"project": m["project"], "sandbox": m["sandbox"], "edit": m.get("edit"),
-            "result": evalproj.evaluate(root, m["sandbox"], proj, 2000)}
+            "result": _eval_member((root, m["project"], m["sandbox"], "replay", 2000))}
 
 
 def replay(ctx, case):
